@@ -1030,118 +1030,180 @@ Example load_example :
             export i = Ok [1;2;3;0;9]%N.
 Proof. eexists. split; [reflexivity|]. split; reflexivity. Qed.
 
-(* ================================================================== (8) HEX / S19 view = export, when every node has a pattern *)
-Inductive all_pat : img -> Prop :=
-| AllPat sz al off bin p subs : (forall c, In c subs -> all_pat c) -> all_pat (Img sz al off bin (Some p) subs).
+(* ================================================================== (8) HEX / S19 view = export *)
+(* is position k of image i written by the HEX/S19 writer (given that an ancestor has already written data: f)? *)
+Fixpoint covered (f : bool) (i : img) (k : Z) : bool :=
+  match i with
+  | Img sz al off bin pat subs =>
+      f || has_pat pat || (k <? zlen bin)
+      || existsb (fun c => (ioff c <=? k) && (k <? ioff c + ilen c)
+                           && covered (f || has_pat pat || negb (isnil bin)) c (k - ioff c)) subs
+  end.
 
-Lemma writes_unfold base sz al off bin pat subs :
-  writes base (Img sz al off bin pat subs) =
-  (match pat with
-   | Some p => match pattern_block p (Z.to_nat (ilen (Img sz al off bin pat subs))) with Ok b => [(base + off, b)] | Err _ => [] end
-   | None => []
-   end)
+Lemma covered_true c k : covered true c k = true.
+Proof. destruct c. reflexivity. Qed.
+
+Lemma writes_unfold f base sz al off bin pat subs :
+  writes f base (Img sz al off bin pat subs) =
+  (if (has_pat pat || f) && negb (ilen (Img sz al off bin pat subs) =? 0) then
+     match pattern_block (pat_or_zeros pat) (Z.to_nat (ilen (Img sz al off bin pat subs))) with
+     | Ok b => [(base + off, b)] | Err _ => [] end
+   else [])
   ++ (if isnil bin then [] else [(base + off, bin)])
-  ++ flat_map (writes (child_base base (Img sz al off bin pat subs))) subs.
+  ++ flat_map (writes (f || has_pat pat || negb (isnil bin)) (base + off)) subs.
 Proof. reflexivity. Qed.
 
 (* every non-empty write of a valid image lies inside the image's own extent *)
 Lemma writes_within i : wf i -> validate i = true ->
-  forall base s d, In (s, d) (writes base i) -> d <> [] ->
-                   base + ioff i <= s /\ s + zlen d <= base + ioff i + ilen i.
+  forall f base s d, In (s, d) (writes f base i) -> d <> [] ->
+                     base + ioff i <= s /\ s + zlen d <= base + ioff i + ilen i.
 Proof.
-  induction i as [sz al off bin pat subs IH] using img_ind'. intros Hw Hv base s d Hin Hne.
+  induction i as [sz al off bin pat subs IH] using img_ind'. intros Hw Hv f base s d Hin Hne.
   rewrite Forall_forall in IH. pose proof (ilen_nonneg _ Hw) as HL0.
   pose proof Hw as Hw'. apply wf_inv in Hw'. destruct Hw' as (_ & _ & _ & Hp & Hsubs).
   pose proof Hv as Hv'. apply validate_inv in Hv'. destruct Hv' as (_ & Hbin & Hvc & Hfit & _).
   rewrite writes_unfold in Hin. set (L := ilen (Img sz al off bin pat subs)) in *. simpl ioff.
   apply in_app_or in Hin. destruct Hin as [Hin|Hin]; [|apply in_app_or in Hin; destruct Hin as [Hin|Hin]].
-  - destruct pat as [p|]; [|destruct Hin].
-    destruct (pattern_block p (Z.to_nat L)) as [blk|] eqn:E; [|destruct Hin].
+  - destruct ((has_pat pat || f) && negb (L =? 0)); [|destruct Hin].
+    destruct (pattern_block (pat_or_zeros pat) (Z.to_nat L)) as [blk|] eqn:E; [|destruct Hin].
     destruct Hin as [Hin|[]]. injection Hin as <- <-. apply pattern_block_length in E. unfold zlen. lia.
   - destruct bin as [|b0 bt]; [destruct Hin|]. destruct Hin as [Hin|[]]. injection Hin as <- <-.
     destruct Hbin as [Hbin|Hbin]; [discriminate|]. lia.
   - apply in_flat_map in Hin. destruct Hin as (c & Hc & Hin).
-    pose proof (IH c Hc (Hsubs c Hc) (Hvc c Hc) _ s d Hin Hne) as [H1 H2].
-    pose proof (validate_off_nonneg c (Hvc c Hc)). pose proof (ilen_nonneg c (Hsubs c Hc)). pose proof (Hfit c Hc).
-    unfold child_base in H1, H2. fold L in H1, H2. simpl ioff in H1, H2.
-    destruct (L =? 0) eqn:E.
-    + exfalso. pose proof (zlen_nonneg d). assert (Hz : zlen d = 0) by lia. apply zlen_nil_iff in Hz. contradiction.
-    + lia.
+    pose proof (IH c Hc (Hsubs c Hc) (Hvc c Hc) _ _ s d Hin Hne) as [H1 H2].
+    pose proof (validate_off_nonneg c (Hvc c Hc)). pose proof (ilen_nonneg c (Hsubs c Hc)). pose proof (Hfit c Hc). lia.
 Qed.
 
-Lemma mem_at_outside i base x cur : wf i -> validate i = true ->
-  ~ (base + ioff i <= x < base + ioff i + ilen i) -> mem_at (writes base i) x cur = cur.
+Lemma mem_at_outside i f base x cur : wf i -> validate i = true ->
+  ~ (base + ioff i <= x < base + ioff i + ilen i) -> mem_at (writes f base i) x cur = cur.
 Proof.
   intros Hw Hv Hx. apply mem_at_nocover. intros s d Hin Hc.
   assert (Hne : d <> []) by (intros ->; unfold zlen in Hc; simpl in Hc; lia).
-  pose proof (writes_within i Hw Hv base s d Hin Hne). lia.
+  pose proof (writes_within i Hw Hv f base s d Hin Hne). lia.
 Qed.
 
-Lemma hex_children a k subs :
+Definition in_range (k : Z) (c : img) : bool := (ioff c <=? k) && (k <? ioff c + ilen c).
+
+(* among pairwise disjoint sub-images at most one contains position k: the view of the children's writes at k
+   is the view of that sub-image's writes (or nothing) *)
+Lemma children_view f a k subs :
   (forall c, In c subs -> wf c) -> (forall c, In c subs -> validate c = true) ->
-  (forall c, In c subs -> forall k' cur', 0 <= k' < ilen c ->
-                          mem_at (writes a c) (a + ioff c + k') cur' = getz (xbytes c) k') ->
-  forall cur0, mem_at (flat_map (writes a) subs) (a + k) cur0 = mem_at (cwrites subs) k cur0.
+  ForallOrdPairs disj (extents subs) ->
+  forall cur0,
+  (existsb (in_range k) subs = false ->
+     mem_at (flat_map (writes f a) subs) (a + k) cur0 = cur0 /\
+     existsb (fun c => in_range k c && covered f c (k - ioff c)) subs = false) /\
+  (forall c, In c subs -> in_range k c = true ->
+     mem_at (flat_map (writes f a) subs) (a + k) cur0 = mem_at (writes f a c) (a + k) cur0 /\
+     existsb (fun c => in_range k c && covered f c (k - ioff c)) subs = in_range k c && covered f c (k - ioff c)).
 Proof.
-  induction subs as [|x t IHt]; intros Hsubs Hvc IH cur0; [reflexivity|].
-  cbn [flat_map cwrites map mem_at]. rewrite mem_at_app. fold (cwrites t).
-  assert (Hx : In x (x :: t)) by now left.
-  destruct (export_xbytes x (Hsubs x Hx) (Hvc x Hx)) as [_ Hxl]. rewrite Hxl.
-  assert (Hstep : mem_at (writes a x) (a + k) cur0 =
-                  if (ioff x <=? k) && (k <? ioff x + ilen x) then nth_error (xbytes x) (Z.to_nat (k - ioff x)) else cur0).
-  { destruct ((ioff x <=? k) && (k <? ioff x + ilen x)) eqn:E.
-    - replace (a + k) with (a + ioff x + (k - ioff x)) by lia.
-      rewrite (IH x Hx) by lia. symmetry. apply getz_nth. lia.
-    - apply mem_at_outside; auto. lia. }
-  rewrite Hstep. apply IHt.
-  - intros c Hc. apply Hsubs. now right.
-  - intros c Hc. apply Hvc. now right.
-  - intros c Hc. apply IH. now right.
+  induction subs as [|x t IHt]; intros Hsubs Hvc Hd cur0.
+  - split; [intros _; split; reflexivity|intros c []].
+  - simpl in Hd. inversion Hd as [|? ? Hf Ht]; subst. rewrite Forall_forall in Hf.
+    assert (Hx : In x (x :: t)) by now left.
+    assert (Hsubs' : forall c, In c t -> wf c) by (intros c Hc; apply Hsubs; now right).
+    assert (Hvc' : forall c, In c t -> validate c = true) by (intros c Hc; apply Hvc; now right).
+    cbn [flat_map existsb]. rewrite mem_at_app.
+    assert (Hout : in_range k x = false -> mem_at (writes f a x) (a + k) cur0 = cur0).
+    { intros E. apply mem_at_outside; auto. unfold in_range in E. lia. }
+    split.
+    + intros E. apply orb_false_iff in E. destruct E as [E1 E2]. rewrite (Hout E1), E1.
+      destruct (IHt Hsubs' Hvc' Ht cur0) as [H1 _]. destruct (H1 E2) as [H1a H1b]. rewrite H1a, H1b. auto.
+    + intros c [<-|Hc] Hr.
+      * assert (E2 : existsb (in_range k) t = false).
+        { destruct (existsb (in_range k) t) eqn:E; [|reflexivity]. apply existsb_exists in E.
+          destruct E as (y & Hy & Hry). exfalso.
+          assert (Hin : In (ioff y, ilen y) (extents t)) by (apply in_map_iff; now exists y).
+          specialize (Hf _ Hin). unfold disj, in_range in *. simpl in Hf. lia. }
+        destruct (IHt Hsubs' Hvc' Ht (mem_at (writes f a x) (a + k) cur0)) as [H1 _].
+        destruct (H1 E2) as [H1a H1b]. rewrite H1a, H1b, orb_false_r. auto.
+      * assert (E1 : in_range k x = false).
+        { destruct (in_range k x) eqn:E; [|reflexivity]. exfalso.
+          assert (Hin : In (ioff c, ilen c) (extents t)) by (apply in_map_iff; now exists c).
+          specialize (Hf _ Hin). unfold disj, in_range in *. simpl in Hf. lia. }
+        rewrite (Hout E1), E1. simpl.
+        destruct (IHt Hsubs' Hvc' Ht cur0) as [_ H2]. exact (H2 c Hc Hr).
 Qed.
 
-Lemma hex_view_lemma i : wf i -> validate i = true -> all_pat i ->
-  forall base k cur, 0 <= k < ilen i -> mem_at (writes base i) (base + ioff i + k) cur = getz (xbytes i) k.
+Lemma hex_view_lemma i : wf i -> validate i = true ->
+  forall f base k cur, 0 <= k < ilen i ->
+  mem_at (writes f base i) (base + ioff i + k) cur = (if covered f i k then getz (xbytes i) k else cur) /\
+  (covered f i k = false -> getz (xbytes i) k = Some 0%N).
 Proof.
-  induction i as [sz al off bin pat subs IH] using img_ind'. intros Hw Hv Hap base k cur Hk.
+  induction i as [sz al off bin pat subs IH] using img_ind'. intros Hw Hv f base k cur Hk.
   rewrite Forall_forall in IH.
   destruct (export_valid _ Hw Hv) as (b & Hb & Hl & Hkk). unfold xbytes. rewrite Hb. rewrite Hkk by assumption.
   pose proof Hw as Hw'. apply wf_inv in Hw'. destruct Hw' as (_ & _ & _ & Hp & Hsubs).
-  pose proof Hv as Hv'. apply validate_inv in Hv'. destruct Hv' as (_ & Hbin & Hvc & Hfit & _).
-  inversion Hap as [? ? ? ? p ? Hapc]; subst.
+  pose proof Hv as Hv'. apply validate_inv in Hv'. destruct Hv' as (_ & Hbin & Hvc & Hfit & Hdisj).
   rewrite writes_unfold. simpl ioff. simpl isubs.
-  set (i := Img sz al off bin (Some p) subs) in *. set (a := base + off).
-  assert (Hcb : child_base base i = a) by (unfold child_base; destruct (ilen i =? 0) eqn:E; [lia|reflexivity]).
-  rewrite Hcb.
-  destruct (pattern_block_ok p (Z.to_nat (ilen i)) Hp) as (blk & Eblk & Hblk). rewrite Eblk.
-  rewrite !mem_at_app.
-  (* pattern block and own binary give base_byte *)
-  assert (H1 : mem_at (if isnil bin then [] else [(a, bin)]) (a + k) (mem_at [(a, blk)] (a + k) cur) = base_byte i k).
-  { unfold base_byte, fill_block. simpl ibin. simpl ipat. cbn [pat_or_zeros]. rewrite Eblk.
-    cbn [mem_at]. replace ((a <=? a + k) && (a + k <? a + zlen blk)) with true by (unfold zlen; lia).
-    replace (a + k - a) with k by lia.
-    destruct bin as [|b0 bt]; cbn [isnil mem_at].
-    - destruct (k <? zlen []) eqn:E; [unfold zlen in E; simpl in E; lia|]. unfold getz.
-      destruct (k <? 0) eqn:E0; [lia|reflexivity].
-    - destruct ((a <=? a + k) && (a + k <? a + zlen (b0 :: bt))) eqn:E.
-      + replace (k <? zlen (b0 :: bt)) with true by lia. replace (a + k - a) with k by lia.
-        unfold getz. destruct (k <? 0) eqn:E0; [lia|reflexivity].
-      + replace (k <? zlen (b0 :: bt)) with false by lia. unfold getz. destruct (k <? 0) eqn:E0; [lia|reflexivity]. }
-  rewrite H1. apply hex_children; auto.
+  set (i := Img sz al off bin pat subs) in *. set (a := base + off).
+  set (f' := f || has_pat pat || negb (isnil bin)).
+  replace (negb (ilen i =? 0)) with true by lia. rewrite andb_true_r.
+  destruct (pattern_block_ok (pat_or_zeros pat) (Z.to_nat (ilen i)) (pat_or_zeros_ok _ Hp)) as (blk & Eblk & Hblk).
+  rewrite Eblk. rewrite !mem_at_app.
+  (* value after the node's own block and binary *)
+  set (cur0 := mem_at (if isnil bin then [] else [(a, bin)]) (a + k)
+                 (mem_at (if has_pat pat || f then [(a, blk)] else []) (a + k) cur)).
+  assert (Hfill : fill_block i = blk) by (unfold fill_block; simpl ipat; fold i; now rewrite Eblk).
+  assert (Hcur0 : cur0 = if f || has_pat pat || (k <? zlen bin) then base_byte i k else cur).
+  { unfold cur0, base_byte. simpl ibin. rewrite Hfill.
+    assert (Hblkk : mem_at [(a, blk)] (a + k) cur = getz blk k).
+    { cbn [mem_at]. replace ((a <=? a + k) && (a + k <? a + zlen blk)) with true by (unfold zlen; lia).
+      replace (a + k - a) with k by lia. unfold getz. destruct (k <? 0) eqn:E0; [lia|reflexivity]. }
+    destruct bin as [|b0 bt]; cbn [isnil].
+    - replace (k <? zlen []) with false by (unfold zlen; simpl; lia). rewrite orb_false_r.
+      cbn [mem_at]. rewrite (orb_comm f). destruct (has_pat pat || f); [exact Hblkk|reflexivity].
+    - cbn [mem_at]. destruct (k <? zlen (b0 :: bt)) eqn:E.
+      + rewrite orb_true_r. replace ((a <=? a + k) && (a + k <? a + zlen (b0 :: bt))) with true by lia.
+        replace (a + k - a) with k by lia. unfold getz. destruct (k <? 0) eqn:E0; [lia|reflexivity].
+      + rewrite orb_false_r. replace ((a <=? a + k) && (a + k <? a + zlen (b0 :: bt))) with false by lia.
+        rewrite (orb_comm f). destruct (has_pat pat || f); [exact Hblkk|reflexivity]. }
+  fold cur0. clearbody cur0.
+  assert (Hcov : covered f i k = f || has_pat pat || (k <? zlen bin)
+                 || existsb (fun c => in_range k c && covered f' c (k - ioff c)) subs) by reflexivity.
+  rewrite Hcov.
+  assert (Hxl : forall c, In c subs -> zlen (xbytes c) = ilen c) by (intros c Hc; apply export_xbytes; auto).
+  destruct (children_view f' a k subs Hsubs Hvc Hdisj cur0) as [HA HB].
+  destruct (existsb (in_range k) subs) eqn:Er.
+  - (* exactly one sub-image contains k *)
+    apply existsb_exists in Er. destruct Er as (c & Hc & Hr).
+    destruct (HB c Hc Hr) as [H1 H2]. rewrite H1, H2, Hr. cbn [andb].
+    assert (Hk' : 0 <= k - ioff c < ilen c) by (unfold in_range in Hr; lia).
+    destruct (IH c Hc (Hsubs c Hc) (Hvc c Hc) f' a (k - ioff c) cur0 Hk') as [Hc1 Hc2].
+    replace (a + ioff c + (k - ioff c)) with (a + k) in Hc1 by lia. rewrite Hc1.
+    rewrite (mem_at_children subs Hxl Hdisj c k) by (auto; unfold in_range in Hr; lia).
+    destruct (covered f' c (k - ioff c)) eqn:Ec.
+    + rewrite orb_true_r. split; [reflexivity|discriminate].
+    + rewrite orb_false_r.
+      assert (Hf' : f' = false).
+      { destruct f' eqn:E; [|reflexivity]. rewrite covered_true in Ec. discriminate. }
+      unfold f' in Hf'. apply orb_false_iff in Hf'. destruct Hf' as [Hf' Hb']. apply orb_false_iff in Hf'.
+      destruct Hf' as [Hf1 Hf2]. rewrite Hf1, Hf2 in *. destruct bin; [|discriminate]. cbn [orb] in *.
+      replace (k <? zlen []) with false in * by (unfold zlen; simpl; lia).
+      split; [exact Hcur0|]. intros _. apply Hc2. reflexivity.
+  - (* no sub-image contains k *)
+    destruct (HA eq_refl) as [H1 H2]. rewrite H1, H2, orb_false_r.
+    rewrite mem_at_nocover.
+    + split; [exact Hcur0|].
+      intros E. apply orb_false_iff in E. destruct E as [E E3]. apply orb_false_iff in E. destruct E as [E1 E2].
+      unfold base_byte. simpl ibin. rewrite E3, Hfill.
+      destruct pat; [discriminate|]. cbn [pat_or_zeros pattern_block] in Eblk.
+      assert (Hz : blk = repeat 0%N (Z.to_nat (ilen i))) by congruence. rewrite Hz. apply getz_repeat. lia.
+    + intros s d Hsd. unfold cwrites in Hsd. apply in_map_iff in Hsd. destruct Hsd as (c & Hcc & Hin).
+      injection Hcc as <- <-. rewrite (Hxl c Hin).
+      assert (in_range k c = false).
+      { destruct (in_range k c) eqn:E; [|reflexivity]. exfalso.
+        assert (existsb (in_range k) subs = true) by (apply existsb_exists; eauto). congruence. }
+      unfold in_range in H. lia.
 Qed.
 
-(* the known finding C16-F1: without the all_pat premise the statement is false *)
+(* the former witness of finding C16-F1 (repaired in /repo): the HEX view now equals export() *)
 Definition f1_witness : img := Img 16 1 4096 [] (Some POnes) [Img 8 1 4 [170; 187]%N None []].
 
-Lemma hex_view_refuted_lemma :
-  wf f1_witness /\ validate f1_witness = true /\
-  mem_at (writes 0 f1_witness) (0 + ioff f1_witness + 6) None = Some 255%N /\
+Example f1_witness_repaired :
+  mem_at (writes false 0 f1_witness) (0 + ioff f1_witness + 6) None = Some 0%N /\
   getz (xbytes f1_witness) 6 = Some 0%N.
-Proof.
-  split.
-  - unfold f1_witness. constructor; simpl; auto; try lia.
-    intros c [<-|[]]. constructor; simpl; auto; try lia.
-  - split; [reflexivity|]. split; reflexivity.
-Qed.
+Proof. split; reflexivity. Qed.
 
 (* ================================================================== (9) memory -> segments (maximal runs) *)
 Lemma group_cons_some a b t :
@@ -1365,35 +1427,33 @@ Proof.
   - split; [reflexivity|]. split; reflexivity.
 Qed.
 
-Example ex_all_pat :
-  exists i, wf i /\ validate i = true /\ all_pat i /\ isubs i <> [].
+(* a sparse image: positions 0..1 are not written to the HEX file, position 2 is *)
+Example ex_sparse :
+  exists i, wf i /\ validate i = true /\ covered false i 0 = false /\ covered false i 2 = true /\ isubs i <> [].
 Proof.
-  exists (Img 8 1 0 [] (Some POnes) [Img 0 1 2 [5; 6]%N (Some PZeros) []]). split.
+  exists (Img 8 1 0 [] None [Img 0 1 2 [5; 6]%N (Some PZeros) []]). split.
   - constructor; simpl; auto; try lia. intros c [<-|[]]. constructor; simpl; auto; try lia.
-  - split; [reflexivity|]. split; [|discriminate].
-    constructor. intros c [<-|[]]. constructor. intros ? [].
+  - split; [reflexivity|]. split; [reflexivity|]. split; [reflexivity|discriminate].
 Qed.
 
 (* ================================================================== statements exactly as used in Props/C16 *)
-Lemma hex_view_is_export_full (i : img) (base : Z) : wf i -> validate i = true -> all_pat i ->
+Lemma hex_view_is_export_full (i : img) (f : bool) (base : Z) : wf i -> validate i = true ->
   (forall k cur, 0 <= k < ilen i ->
-     exists b, export i = Ok b /\ mem_at (writes base i) (base + ioff i + k) cur = getz b k) /\
-  (forall x cur, ~ (base + ioff i <= x < base + ioff i + ilen i) -> mem_at (writes base i) x cur = cur).
+     exists b, export i = Ok b /\
+               mem_at (writes f base i) (base + ioff i + k) cur = (if covered f i k then getz b k else cur) /\
+               (covered f i k = false -> getz b k = Some 0%N)) /\
+  (forall x cur, ~ (base + ioff i <= x < base + ioff i + ilen i) -> mem_at (writes f base i) x cur = cur).
 Proof.
-  intros Hw Hv Ha. split.
-  - intros k cur Hk. exists (xbytes i). split; [apply (export_xbytes i Hw Hv)|apply (hex_view_lemma i Hw Hv Ha base k cur Hk)].
-  - intros x cur Hx. exact (mem_at_outside i base x cur Hw Hv Hx).
+  intros Hw Hv. split.
+  - intros k cur Hk. exists (xbytes i). split; [apply (export_xbytes i Hw Hv)|].
+    destruct (hex_view_lemma i Hw Hv f base k cur Hk) as [H1 H2].
+    unfold xbytes in *. destruct (export_xbytes i Hw Hv) as [He _]. rewrite He in *. auto.
+  - intros x cur Hx. exact (mem_at_outside i f base x cur Hw Hv Hx).
 Qed.
 
-Lemma hex_view_is_export_refuted_full :
-  exists (i : img) (k : Z) (b : list N),
-    wf i /\ validate i = true /\ 0 <= k < ilen i /\ export i = Ok b /\
-    mem_at (writes 0 i) (0 + ioff i + k) None <> getz b k.
-Proof.
-  exists f1_witness, 6, (xbytes f1_witness). destruct hex_view_refuted_lemma as (Hw & Hv & Hm & Hg).
-  split; [exact Hw|]. split; [exact Hv|]. split; [split; [discriminate|reflexivity]|].
-  split; [apply (export_xbytes _ Hw Hv)|]. rewrite Hm, Hg. discriminate.
-Qed.
+(* an image whose root has a pattern (what load_from_config builds) is written completely *)
+Lemma covered_root_pattern f i k : ipat i <> None -> covered f i k = true.
+Proof. destruct i as [sz al off bin [p|] subs]; simpl; [intros _; now rewrite orb_true_r|congruence]. Qed.
 
 Lemma segments_sound_full (ws : list (Z * list N)) :
   segs_sorted (segments ws) /\
@@ -1428,3 +1488,10 @@ Lemma add_image_sorted_full (p c : img) : Sorted off_le (isubs p) ->
                 Forall (fun x => ioff x <= ioff c) l1 /\
                 match l2 with x :: _ => ioff c < ioff x | [] => True end.
 Proof. intros H. destruct (add_image_sorted_lemma p c H). repeat split; auto. apply add_image_stable_lemma. Qed.
+
+(* sanity: the repaired D11 shape *)
+Example ex_d11_shape :
+  (* BinaryImage("a", size=4, binary=8 bytes): len 4, validate raises (D11 repaired), export still 8 bytes *)
+  run_case 1 [VList [VInt 4; VInt 1; VInt 0; VBytes [0;1;2;3;4;5;6;7]%N; VList []; VList []]]
+  = VList [VInt 4; VInt 0; VBytes [0;1;2;3;4;5;6;7]%N; VList [VList [VInt 0; VInt 4]]].
+Proof. vm_compute. reflexivity. Qed.
